@@ -307,8 +307,19 @@ class C21(Property):
                 obj = mk(**first) if steps[0][0] == "kwargs" else mk(aberration_coefficients=first)
                 for n, v in first.items():
                     note(n, v)
+                alpha = arr(c["alpha"], (3, 4))
+                phi = arr(c["phi"], (3, 4))
                 for how, items in steps[1:]:
                     vals = {n: ufx(v) for n, v in items}
+                    if how == "evaluate":
+                        # evaluating in the middle of a history must not freeze anything (round-3 seed C21-r3: an Aberrations object cached
+                        # at the first evaluation kept the old wavelength after a later energy change)
+                        obj._evaluate_from_angular_grid(alpha, phi)
+                        continue
+                    if how == "energy":
+                        energy = vals["energy"]
+                        obj.energy = energy
+                        continue
                     if how == "set_aberrations":
                         obj.set_aberrations(vals)
                     else:
@@ -321,8 +332,8 @@ class C21(Property):
                 if got != want:
                     bad = {k: (got[k], want[k]) for k in got if got[k] != want[k]}
                     return ctx.violation("update-history-leaves-stale-coefficient", c, {"observed_vs_expected": bad})
-                alpha = arr(c["alpha"], (3, 4))
-                phi = arr(c["phi"], (3, 4))
+                ctx.count("history-steps:" + ("with-energy-change" if any(h == "energy" for h, _ in steps) else "coefficients-only")
+                          + (":evaluated-midway" if any(h == "evaluate" for h, _ in steps) else ""))
                 fresh = tr.Aberrations(aberration_coefficients=want, energy=energy)
                 src = obj if c["cls"] == "Aberrations" else tr.Aberrations(aberration_coefficients=dict(obj.aberration_coefficients), energy=energy)
                 ka, kb = (np.asarray(o._evaluate_from_angular_grid(alpha, phi)) for o in (src, fresh))
@@ -427,8 +438,14 @@ class C21(Property):
 
             steps = [[rng.choice(["kwargs", "dict"]), [[n, fx(ufx(v) if ufx(v) != 0 else 1.0)] for n, v in items(names)]]]
             for _ in range(rng.randint(1, 4)):
-                touched = [n for st in steps for n, _ in st[1]]
+                touched = [n for st in steps if st[0] not in ("evaluate", "energy") for n, _ in st[1]]
                 steps.append([rng.choice(["set_aberrations", "set_aberrations", "setattr"]), items(touched + touched + names)])
+                if rng.random() < 0.5:
+                    steps.append(["evaluate", []])
+                if rng.random() < 0.4:
+                    steps.append(["energy", [["energy", fx(rng.choice([60e3, 80e3, 120e3, 200e3, 300e3]))]]])
+                    if rng.random() < 0.5:
+                        steps.append(["evaluate", []])
             c["steps"] = steps
         if chk == "ensemble":
             c["dists"] = []
